@@ -111,8 +111,8 @@ EdgeFull == << Zero, One, Two, FromNat(3), FromNat(9), FromNat(10), FromNat(11),
                Ten(9), Sub(Pow2(32), One), Pow2(32), Ten(18), Add(Ten(18), One), Sub(Pow2(61), One), Pow2(61), Sub(Pow2(62), One), Pow2(62),
                Sub(Pow2(63), Two), I64Max, Pow2(63), Add(Pow2(63), One), Ten(19), Sub(U64Max, One), U64Max,
                U64From8(SubSeq(Rnd32(40), 1, 8)), U64From8(SubSeq(Rnd32(41), 1, 5)) >>
-EdgeQuick == << Zero, One, FromNat(10), FromNat(255), Ten(9), Ten(18), Pow2(61), Sub(Pow2(62), One),
-                Sub(Pow2(63), Two), I64Max, Pow2(63), Ten(19), Sub(U64Max, One), U64Max, U64From8(SubSeq(Rnd32(40), 1, 8)) >>
+EdgeQuick == << Zero, One, FromNat(10), FromNat(255), Ten(18), Sub(Pow2(62), One),
+                Sub(Pow2(63), Two), I64Max, Pow2(63), Sub(U64Max, One), U64Max >>
 EdgeU64 == IF EnvNat("VERIF_THOROUGH") = 1 THEN EdgeFull ELSE EdgeQuick
 RECURSIVE DigitSum(_, _)
 DigitSum(secidx, i) == IF i > Len(secidx) THEN Zero ELSE Add(Mul(FromNat(secidx[i]), Pow2(2 * (i - 1))), DigitSum(secidx, i + 1))
@@ -226,10 +226,10 @@ GuardCases == { c \in GuardGrid : LET pp == RpSignParams(c[2], c[3], c[4], c[5])
 \* argument ranges
 RangeCases == { c \in { << "sign", v, m, e, b, DO >> : v \in { U(10), Ten(18) }, m \in { Zero, U(11) }, e \in { -2, -1, 0, 18, 19, 100, -100 },
                                                         b \in { -1, 0, 1, 64, 65, 1000, -1000 } } : Cheap(c[2], c[3], c[4], c[5], 2) }
-\* full-size proofs (32 rings): two in quick
+\* full-size proofs (32 rings): one in quick (a second one is verified and rewound in the T direction)
 BigCases ==
-       { << "sign", U64Max, Zero, 0, 0, [DO EXCEPT !.ml = 3968, !.xl = 100] >>,
-         << "sign", I64Max, Zero, 0, 0, [DO EXCEPT !.ml = 100, !.g = 2] >> }
+       { << "sign", U64Max, Zero, 0, 0, [DO EXCEPT !.ml = 3968, !.xl = 100] >> }
+  \cup (IF Thorough THEN { << "sign", I64Max, Zero, 0, 0, [DO EXCEPT !.ml = 100, !.g = 2] >> } ELSE { })
   \cup { << "sign", U64Max, Zero, 0, 0, [DO EXCEPT !.ml = 3969] >>, << "sign", I64Max, Zero, 0, 0, [DO EXCEPT !.ml = 4000] >>,
          << "sign", U64Max, Zero, 0, 0, [DO EXCEPT !.pl = -2] >>, << "sign", U64Max, Zero, 0, 0, [DO EXCEPT !.pl = 5000] >> }
   \cup (IF Thorough THEN { << "sign", v, m, e, b, DO >> : v \in { Pow2(62), Ten(18), Sub(U64Max, One) }, m \in { Zero }, e \in { 0, 4 }, b \in { 0, 33, 62 } }
